@@ -55,7 +55,7 @@ CLAIMED["C10"] = ("§3 C10",
 
 CLAIMED["C12"] = ("§3 C12",
     "CFG must-pass (Validate before encode), registry agreement of the encoder/decoder switches over build.Encoding, scoped error-discipline rule, constant-folded open flags of the delayed writer, shared importer gate",
-    "Decides the concreteness gate before every encValue/encFile, that every data encoding sets concrete=true and the round-trip encodings have both encoder and decoder cases with error defaults, that no error of the encode/validate/close chain is dropped in the encoder or in cue export, that the output file is opened exclusively (unless --force) only after the whole buffer exists, and the JSON importer's key-unquoting predicate. It does not decide data equality across the trip nor TOML table/key handling.",
+    "Decides the concreteness gate before every encValue/encFile, that every data encoding sets concrete=true and the round-trip encodings have both encoder and decoder cases with error defaults, that no error of the encode/validate/close chain is dropped in the encoder or in cue export, that the output file is opened exclusively (unless --force) only after the whole buffer exists, and the JSON importer's key-unquoting predicate. The TOML encoder calls go-toml only after a successful kind walk that rejects null, bytes and numbers beyond 64 bits (the defect — these were changed silently — was repaired in /repo, fix: e29e638). It does not decide data equality across the trip nor TOML table handling.",
     "third-party YAML/TOML emitters trusted; file-type inference is CUE-language data (types.cue), not analysed")
 
 CLAIMED["C11"] = ("§3 C11",
